@@ -162,6 +162,38 @@ def build_tu(vu, work, canary=None):
             ht = ht.replace(kv["after"], kv["after"] + " " + kv["text"])
             open(hp, "w").write(ht)
             log["rewrites"].append("header %s: declaration added after %r: %s" % (name, kv["after"], kv["text"]))
+        elif kind == "hdrsubst":
+            # textual substitution in copied headers (front-end workarounds such as R8/R10); must fire
+            total = 0
+            names = [os.path.basename(x) for x in sorted(glob.glob(os.path.join(hdr, pos[0])))]
+            names = [n for n in names if n not in kv.get("except", "").split(",")]
+            for name in names:
+                hp = os.path.join(hdr, name)
+                ht = open(hp).read()
+                new, k = re.subn(kv["from"], kv["to"], ht)
+                if k:
+                    open(hp, "w").write(new)
+                total += k
+            if total == 0:
+                raise Undecided("extraction", "hdrsubst %r did not fire in %s" % (kv["from"], pos[0]))
+            log["rewrites"].append("headers %s: %r -> %r x%d" % (pos[0], kv["from"], kv["to"], total))
+        elif kind == "bison":
+            # regenerate the token header from the grammar of the working tree, as the build does
+            src = os.path.join(REPO, pos[0])
+            rc, so, se, dt = run(["bison", "-o", os.path.join(hdr, "cppBison.cxx"), "--defines=" + os.path.join(hdr, pos[1]),
+                                  "-p", "cppyy", src], cwd=work, timeout=120)
+            if rc != 0 or not os.path.exists(os.path.join(hdr, pos[1])):
+                raise Undecided("extraction", "bison failed on %s: %s" % (src, (so + se)[-800:]))
+            log["rewrites"].append("header %s generated by bison from %s" % (pos[1], pos[0]))
+        elif kind == "generate":
+            # VU-specific generator deriving harness tables from /repo (e.g. the operator alphabet of the grammar)
+            rc, so, se, dt = run(["python3", os.path.join(vdir, pos[0]), REPO, work], cwd=work, timeout=120)
+            if rc != 0:
+                raise Undecided("extraction", "generator %s failed: %s" % (pos[0], (so + se)[-800:]))
+            log["rewrites"].append("generated by %s: %s" % (pos[0], so.strip()[:300]))
+        elif kind == "splice":
+            # text generated earlier in this run (by //@generate) becomes part of the TU
+            out.append(open(os.path.join(work, pos[0])).read())
         elif kind == "truncate":
             # keep a header's text up to (not including) an anchor: //@truncate file.I anchor="..."
             name = pos[0]
@@ -457,6 +489,8 @@ def vu_pipeline(vu, pid, tier, seed, workroot, pool):
         if do_cover:
             compile_tu(vu, work, extra_defs=["VU_COVER"], out="tu_cover.gb")
         entries = discover_entries(vu, work)
+        if vu.get("only_entries"):
+            entries = [e for e in entries if re.search(vu["only_entries"], e["name"])]
         if os.environ.get("VERIF_ENTRY"):
             entries = [e for e in entries if re.search(os.environ["VERIF_ENTRY"], e["name"])]
     except Undecided as u:
@@ -515,6 +549,8 @@ def run_canary(vu, workroot, canary, tier, entries):
         raise Undecided("canary-does-not-compile", canary["id"] + ": " + u.detail[-500:])
     killed = False
     hit = None
+    if not [e for e in entries if e["name"] in canary["entries"]] and not os.environ.get("VERIF_ENTRY"):
+        raise Undecided("vu-definition", "canary %s names no existing entry" % canary["id"])
     for e in entries:
         if e["name"] not in canary["entries"]:
             continue
